@@ -465,10 +465,21 @@ fn run<B: SimField, H: ElementHasher<BaseField = B> + Send + Sync + 'static>(ch:
             Some(segs + 1 + (t == "ood-evals") as usize)
         },
         _ => {
-            p2.pow_nonce ^= 1 << ch.index("flip.bit", 16);
+            // one bit of the nonce, or the nonce moved by the base field's modulus (an integer
+            // that a hasher which absorbs the nonce as field elements has to keep apart)
+            let m = to_u128(B::ZERO - B::ONE) + 1;
+            let moved = if m <= u64::MAX as u128 { p2.pow_nonce.checked_add(m as u64) } else { None };
+            match (ch.chance("flip.nonce_by_modulus?", 1, 3), moved) {
+                (true, Some(n)) => {
+                    p2.pow_nonce = n;
+                    ctx.probe("nonce_moved_by_the_field_modulus");
+                },
+                _ => p2.pow_nonce ^= 1 << ch.index("flip.bit", 16),
+            }
             None
         },
     };
+    let altered_nonce = p2.pow_nonce;
     ctx.fault(match t {
         "main" => "flip_main_trace_commitment",
         "aux" => "flip_aux_or_constraint_commitment",
@@ -496,6 +507,19 @@ fn run<B: SimField, H: ElementHasher<BaseField = B> + Send + Sync + 'static>(ch:
             v
         };
         if set(&vlog) == set(&flog) {
+            // ... unless the coin does not tell the two nonces apart at all: decided on 64
+            // integers below 2^32 drawn under each nonce from the state the positions come from
+            coin::set_alias_probe(altered_nonce);
+            coin::clear_log();
+            let _ = verify_with::<B, H, RecordingCoin<H>>(proof.clone(), case.inputs.clone(), &min_sec0());
+            coin::clear_log();
+            if coin::take_alias_probe() == Some(true) {
+                ctx.violation(
+                    "C04/nonce-alias",
+                    format!("the coin gives identical outputs for the nonces {} and {altered_nonce}: the proof-of-work check and the query positions do not depend on the nonce carried in the proof; {}", proof.pow_nonce, ctxt()),
+                );
+                return;
+            }
             ctx.probe("flipped_nonce_gives_same_positions");
             return;
         }
